@@ -20,6 +20,9 @@ RunClause(docs, r) ==      \* "" or the failing clause of one run
         (IF r.ok \/ r.stage # "load" THEN "MissingRefAtLoad"
          ELSE IF ~r.sigma THEN "MissingRefAtLoad:NonSigmaException" ELSE "")
     ELSE IF ~r.ok THEN (IF r.sigma THEN "ValidRuleSetFails:" \o r.stage ELSE "NonSigmaException")
+    \* SigmaCollection.rules as the loader left it: referenced rules first, whatever the load path
+    ELSE IF ~IsPermutationOf(r.order0, Len(docs)) THEN "OrderIsPermutation:at-load"
+    ELSE IF ~RefsFirst(docs, r.order0) THEN "RefsFirst:at-load"
     ELSE IF ~IsPermutationOf(r.order, Len(docs)) THEN "OrderIsPermutation"
     ELSE IF ~RefsFirst(docs, r.order) THEN "RefsFirst"
     ELSE LET fin == Replay(docs, CInit(r.order), r.events) IN
